@@ -98,6 +98,19 @@ CHECKS = {
              "Exact ties may resolve either way. Diagram drawing is stubbed during the walk (real in the hand-over).",
         technique="TLC model checking of Pick.tla + replay of every event sequence on the real dialog and mpe_from_plot",
     ),
+    "C01": dict(
+        text="Ident.tla (pipelines single / real): TLC enumerates systems (subsets of a 10-mode catalogue with real and complex "
+             "shapes and exact zero components), channel counts, every ordered reference list that keeps the system observable "
+             "(ObservablePrecondition), block rows from the minimum admissible count upward, both Hankel methods, both "
+             "realisation routines, and checks ExactAtTrueOrder, BlockRowsAdmissible, EnoughBlockColumns; the prediction - "
+             "each mode exactly twice at order 2m, nothing else - is checked on the real build_hank -> SSI_fast | SSI -> "
+             "SSI_poles -> SSI_mpe chain and on SingleSetup + SSIcov / SSIdat (run, mpe) for synthesised free decays and for "
+             "exact rank-2m Hankel matrices; the order-2m column is projected onto catalogue ids.",
+        ref="DESIGN.md §4.10, §5 C01, §6",
+        note="Trusted: TLC, numpy synthesis, closeness thresholds (|df|/f 1e-6, |dxi| 1e-6, 1-MAC 1e-8; observed errors "
+             "~1e-10). Ill-conditioned generated inputs skipped and counted. Replay seeded-sampled above a cap.",
+        technique="TLC model checking of Ident.tla + replay of every enumerated case through the SSI function chain and setup classes",
+    ),
     "C02": dict(
         text="PoserMerge.tla (+ Layout.tla): TLC enumerates every arrangement of reference and roving sensors in every "
              "setup's channel list (2..4 setups, 1..3 references, 0..2 roving sensors), scale patterns of either sign and "
@@ -110,6 +123,19 @@ CHECKS = {
         note="Trusted: TLC, exact Fractions / Gaussian integers of harness/tables.py. The end-to-end clause (shapes from SSI "
              "runs) is covered through Ident.tla in the C01/C03 machinery when present.",
         technique="TLC model checking of PoserMerge.tla + replay of every layout through merge_mode_shapes / merge_results",
+    ),
+    "C03": dict(
+        text="Split.tla (+ Layout.tla): exhaustive over every channel count <= 6 and every ordered reference subset "
+             "(Partition, RefListed, MovAscending); integer-tagged samples let the projection read which channel every "
+             "output row of gen.pre_multisetup / MultiSetup_PreGER.data (construction, rollback) is and whether it is "
+             "intact. Ident.tla (pipeline multi): TLC enumerates global systems, every arrangement of shared reference and "
+             "roving sensors, block rows, both methods and per-setup gain patterns over four orders of magnitude; "
+             "SSI_multi_setup -> SSI_poles and MultiSetup_PreGER + SSIcov_MS / SSIdat_MS (run_all, mpe) must show each "
+             "global mode exactly twice at order 2m with shapes in Layout!GlobalOrder, independent of the gains.",
+        ref="DESIGN.md §4.2, §4.10, §5 C03",
+        note="Trusted: TLC, numpy synthesis, closeness thresholds as C01. The split after every preprocessing step is "
+             "covered by C14's replay (data vs. interp with the same split definition).",
+        technique="TLC model checking of Split.tla / Ident.tla / Layout.tla + replay through pre_multisetup, SSI_multi_setup and the _MS classes",
     ),
     "C04": dict(
         text="Spectra.tla (focus preger, + Layout.tla): TLC enumerates every arrangement of 1..3 shared reference channels "
